@@ -40,7 +40,7 @@ def floors(tier):
     return {"bf=0": 300, "bf=1": 300, "mode=GET": 200, "mode=SET": 100, "mode=POLL": 100,
             "count=0": 20, "count>=100": 5, "nested": 2, "variant": 20, "none-group": 20,
             "neg": 50, "scaled": 100, "after-failed-operation": 500, "via-reader": 1000,
-            "via-reader-after-twin": 300, "byte-probe": 50000, "ctor-payload-with-keywords": 2000}
+            "via-reader-after-twin": 300, "byte-probe": 50000, "ctor-payload-with-keywords": 2000, "application-registered-type": 200}
 
 
 def eligible(t):
@@ -60,7 +60,7 @@ def plan(tier, seed):
     shards = [[] for _ in range(32)]
     for j, (_k, g) in enumerate(sorted(groups.items())):
         shards[j % 32].extend(g)
-    return [{"targets": part} for part in shards if part]
+    return [{"targets": part} for part in shards if part] + [{"what": "synthetic"}]
 
 
 def group_spans(nodes):
@@ -109,6 +109,20 @@ def run_shard(spec, ctx, acc):
     targets = C.cat()[0]
     known = set(ctx["known"])
     n = 10 if ctx["tier"] == "quick" else 120
+    if spec.get("what") == "synthetic":
+        # message types registered by the application (vp/props/synth.py)
+        from vp.props import synth
+
+        for name in synth.DEFS:
+            synth.sight_unknown(name)
+            with synth.registered(name) as t:
+                for bf in (1, 0):
+                    before = acc.evaluations
+                    core.hyp_search(acc, case_strategy(t, bf, ctx["tier"]), check,
+                                    seed=core.derive(ctx["seed"], PROP, "synthetic", name, bf),
+                                    max_examples=60 if ctx["tier"] == "quick" else 1500, known=known, rounds=2)
+                    acc.classes["application-registered-type"] += acc.evaluations - before
+        return
     acc.extra["unmodelled_variants"] = [f"{m}:{k.hex()}" for m, k in C.cat()[2]]
     acc.extra["unreachable_definitions"] = C.cat()[1]
     for ti in spec["targets"]:
@@ -200,6 +214,13 @@ def byte_probes(t, tier, seed):
 
 def check(case) -> core.Out:
     import pyubx2
+
+    from vp.props import synth
+
+    if case.get("defname") in synth.DEFS and C.find_target(case["mode"], bytes(case["clsid"]), case["defname"]) is None:
+        synth.sight_unknown(case["defname"])
+        with synth.registered(case["defname"]):
+            return check(case)
 
     mode, clsid, defname, bf, nodes = (case["mode"], bytes(case["clsid"]), case["defname"],
                                        case["bf"], case["nodes"])
